@@ -1401,6 +1401,11 @@ class Run:
                     concrete = False
         if concrete:
             return VStr(str, "".join(parts))
+        if self.ghost.get("fstring_exact") and all(isinstance(x, str) or (isinstance(x, VStr) and x.cls in self.ghost["fstring_exact"]) for x in raw) \
+                and all(isinstance(p, ast.Constant) or (p.conversion in (-1, 115) and p.format_spec is None) for p in e.values):
+            # f"{s}" of an exact str (or a listed str subclass that inherits str.__format__/__str__) is s: exact concatenation
+            terms = [z3.StringVal(x) if isinstance(x, str) else (x.t if not isinstance(x.t, str) else z3.StringVal(x.t)) for x in raw]
+            return VStr(str, terms[0] if len(terms) == 1 else z3.Concat(*terms))
         if any(type(x).__name__ == "VText" for x in raw):
             h = self.ghost.get("text_fstring")
             if h is None:
